@@ -238,6 +238,26 @@ pub fn run(data: &[u8], ctx: &mut Ctx) -> Outcome {
         }
     }
 
+    // ---- a well-formed attachment OBJECT under another predicate is not an attachment
+    {
+        let a0 = &atts[0];
+        let obj = Envelope::new_attachment(a0.payload.clone(), a0.vendor, a0.conforms).as_object().unwrap();
+        let others: Vec<(&str, Envelope)> = vec![
+            ("text 'attachment'", Envelope::new_assertion("attachment", obj.clone())),
+            ("'note'", Envelope::new_assertion(known_values::NOTE, obj.clone())),
+            ("'vendor'", Envelope::new_assertion(known_values::VENDOR, obj.clone())),
+            ("the integer 50", Envelope::new_assertion(50u64, obj.clone())),
+            ("known value 51", Envelope::new_assertion(KnownValue::new(51), obj.clone())),
+        ];
+        for (name, bad) in others {
+            let r = nopanic!(ctx, bad.validate_attachment(), "malformed", "C19/malformed/wrong-predicate");
+            check!(ctx, r.is_err(), "malformed", "C19/malformed/wrong-predicate", "validate_attachment accepted an assertion whose predicate is {} (with a well-formed attachment object)", name);
+            let with = tryp!(ctx, e.add_assertion_envelope(bad).map_err(|x| x.to_string()), "malformed", "C19/malformed/wrong-predicate");
+            let n = nopanic!(ctx, with.attachments().map(|v| v.len()).map_err(|x| x.to_string()), "malformed", "C19/malformed/wrong-predicate");
+            check!(ctx, n == Ok(want_all.len()), "malformed", "C19/malformed/wrong-predicate", "an assertion with predicate {} changed what attachments() reports: {:?}", name, n);
+        }
+    }
+
     // ---- types
     let n_types = src.weighted(&[20, 35, 25, 12, 8]);
     let mut t = base.clone();
